@@ -5,9 +5,10 @@ Property theorems for the **"simple Callable signatures" part of C01 (soundness)
 independence)**, and the C08-flavoured totality of that part.  Model: `Model/Callable.lean` (parameterised by the generated
 `Gen/Callable.lean`), spec: `Spec/Callable.lean`, regions: `Spec/CallableRegions.lean`, lemmas: `Lemmas/Callable.lean`.
 
-This is the version for the tree with the repairs F1-F5 (`fixes/Callable_fix_F1.diff` … `F5.diff`): five of the six regions of the
-unrepaired tree are gone — their refutations are replaced by positive theorems (`fixed_*`, `isSubtypeT_exact`,
-`callable_without_name_checked`, `spelling_invariant`) — and the guard of `callable_complete_partial` is the one region left.
+This is the version for the tree with the repairs F1-F5 (`fixes/Callable_fix_F1.diff` … `F5.diff`): and with the repair of
+`asyncVsTop`: all six regions of the unrepaired tree are gone — their refutations are replaced by positive theorems (`fixed_*`,
+`isSubtypeT_exact`, `callable_without_name_checked`, `spelling_invariant`, `guard_always`, `callable_complete_full_holds`); the guard
+of `callable_complete_partial` is kept as a hypothesis that `guard_always` discharges (it rests on the generated fact `coroOtherTopTest`).
 
 All theorems quantify over every class table satisfying `Env.WF` (the driver checks `WF` on every table the harness sends),
 every annotation and every value of the model — no bound on arity, nesting depth of the types, or length of list / dict values.
@@ -265,17 +266,37 @@ def pStr : FParam := ⟨.ty (.cls 4), false⟩
 def callable_complete_full : Prop :=
   ∀ (env : Env), env.WF → ∀ (x : Expected) (v : Val), conforms env x v = true → check env x v = .ok true
 
-/-- the region that stays open: `async def f(a: int) -> str` vs `Callable[..., Any]` conforms (everything is an `Any`), rejected -/
-theorem complete_fails_asyncVsTop :
-    conforms demoEnv (cb none .any) (fn [pInt] (.ty (.cls 4)) true) = true ∧
-    check demoEnv (cb none .any) (fn [pInt] (.ty (.cls 4)) true) = .ok false ∧
-    regions demoEnv (cb none .any) (fn [pInt] (.ty (.cls 4)) true) = [.asyncVsTop] := by decide
+/-- no region is left: the last one (`asyncVsTop`) depends on the generated fact `coroOtherTopTest` and is empty in this tree -/
+theorem guard_always (env : Env) (x : Expected) (v : Val) : Guard env x v := by
+  have hl : ∀ l, leafRegions env l x.e = [] := by
+    intro l
+    cases l with
+    | none => rfl
+    | nonCallable => rfl
+    | callable n s k => cases s <;> simp [leafRegions, retRegions, coroOtherTopTest]
+  unfold Guard regions
+  cases v with
+  | leaf l => exact hl l
+  | list xs => simp only [List.flatMap_eq_nil_iff]; exact fun l _ => hl l
+  | dict kvs => simp only [List.flatMap_eq_nil_iff]; exact fun kv _ => hl kv.2
 
-theorem callable_complete_full_false : ¬ callable_complete_full := by
-  intro h
-  have := h demoEnv demoEnv_wf _ _ complete_fails_asyncVsTop.1
-  rw [complete_fails_asyncVsTop.2.1] at this
-  cases this
+/-- **C02, Callable part, full statement**: every conforming value is accepted (the former region `asyncVsTop` is repaired) -/
+theorem callable_complete_full_holds : callable_complete_full :=
+  fun _ wf x v h => callable_complete_partial wf x v (guard_always _ x v) h
+
+/-- the model decides exactly conformance: no guard -/
+theorem callable_iff {env : Env} (wf : env.WF) (x : Expected) (v : Val) :
+    check env x v = .ok true ↔ conforms env x v = true :=
+  callable_iff_partial wf x v (guard_always env x v)
+
+/-- the former region: `async def f(a: int) -> str` conforms to `Callable[..., Any]` and to `Callable[[int], object]` and is accepted;
+    against `Callable[[int], str]` it is still rejected (calling it yields a coroutine, not a `str`) -/
+theorem fixed_asyncVsTop :
+    conforms demoEnv (cb none .any) (fn [pInt] (.ty (.cls 4)) true) = true ∧
+    check demoEnv (cb none .any) (fn [pInt] (.ty (.cls 4)) true) = .ok true ∧
+    check demoEnv (cb (some [.cls 2]) (.cls 0)) (fn [pInt] (.ty (.cls 4)) true) = .ok true ∧
+    check demoEnv (cb (some [.cls 2]) (.cls 4)) (fn [pInt] (.ty (.cls 4)) true) = .ok false ∧
+    regions demoEnv (cb none .any) (fn [pInt] (.ty (.cls 4)) true) = [] := by decide
 
 /-! ## the repaired regions: positive theorems in place of the former refutations -/
 
@@ -382,9 +403,9 @@ theorem pairing_readings_agree (ps : List FParam) (ts : List TA) (h : requiredFi
 
 /-! ## short names -/
 
-/-- `callable_complete` = the guarded completeness theorem (the unguarded statement `callable_complete_full` is false) -/
+/-- `callable_complete`: completeness on the whole fragment (the guard of `callable_complete_partial` always holds: `guard_always`) -/
 theorem callable_complete {env : Env} (wf : env.WF) (x : Expected) (v : Val)
-    (hg : Guard env x v) (h : conforms env x v = true) : check env x v = .ok true := callable_complete_partial wf x v hg h
+    (h : conforms env x v = true) : check env x v = .ok true := callable_complete_partial wf x v (guard_always env x v) h
 
 /-! ## non-vacuity: concrete instances on both sides of every theorem -/
 
@@ -392,7 +413,7 @@ theorem callable_complete {env : Env} (wf : env.WF) (x : Expected) (v : Val)
 example : check demoEnv (cb (some [.cls 2, .cls 4]) (.cls 3)) (fn [pInt, pStr] (.ty (.cls 3))) = .ok true := by decide
 example : conforms demoEnv (cb (some [.cls 2, .cls 4]) (.cls 3)) (fn [pInt, pStr] (.ty (.cls 3))) = true := by decide
 example : Guard demoEnv (cb (some [.cls 2, .cls 4]) (.cls 3)) (fn [pInt, pStr] (.ty (.cls 3))) := by decide
-example : ¬ Guard demoEnv (cb none .any) (fn [pInt] (.ty (.cls 4)) true) := by decide
+example : Guard demoEnv (cb none .any) (fn [pInt] (.ty (.cls 4)) true) := by decide
 -- one parameter type changed to an unrelated class / arity -1 / arity +1 / return type changed: rejected, not conforming
 example : check demoEnv (cb (some [.cls 2, .cls 4]) (.cls 3)) (fn [pInt, pInt] (.ty (.cls 3))) = .ok false := by decide
 example : conforms demoEnv (cb (some [.cls 2, .cls 4]) (.cls 3)) (fn [pInt, pInt] (.ty (.cls 3))) = false := by decide
